@@ -3,6 +3,8 @@
 run the quick check of its property, revert. Every check must stay silent (exit 0); exit 1 if any raises an alarm."""
 import glob, json, os, subprocess, sys, time
 
+os.environ["VERIF_EVIDENCE_DIR"] = "/tmp/verif-evidence-scratch"  # runs on modified trees must not rewrite /verif/evidence
+
 def sh(cmd, cwd=None):
     p = subprocess.run(cmd, shell=True, cwd=cwd, stdout=subprocess.PIPE, stderr=subprocess.STDOUT, text=True, errors="replace")
     return p.returncode, p.stdout
